@@ -563,6 +563,9 @@ void carquet_sse_gather_double(const double* dict, const uint32_t* indices,
 uint32_t carquet_sse_crc32c(uint32_t crc, const uint8_t* data, size_t len) {
     size_t i = 0;
 
+    /* Same convention as the scalar definition: the CRC register is the complement of the value */
+    crc = ~crc;
+
 #ifdef __x86_64__
     /* Process 8 bytes at a time on 64-bit */
     for (; i + 8 <= len; i += 8) {
@@ -592,7 +595,7 @@ uint32_t carquet_sse_crc32c(uint32_t crc, const uint8_t* data, size_t len) {
         crc = _mm_crc32_u8(crc, data[i]);
     }
 
-    return crc;
+    return ~crc;
 }
 
 /* ============================================================================
